@@ -15,7 +15,7 @@ def run(pid, tier, seed, known):
     out = _check.native(mod, {'mode': 'search', 'property': pid, 'obligation': {}, 'seed': seed,
                               'tier': tier, 'skip_signatures': skip}, timeout=600)
     res = {'standins': [{'kind': 'native bounded search of the property oracle',
-                         'bound': entry.get('bound', ''), 'status': out.get('status'),
+                         'bound': entry.get('bound') or ('families enumerated by replay/%s.py for the %s tier (see its docstring and families())' % (mod, tier)), 'status': out.get('status'),
                          'tried': out.get('tried')}], 'lines': [], 'violations': 0}
     if out.get('status') == 'reproduced':
         ob = {'name': 'bounded[%s]' % pid, 'kind': 'bounded', 'role': 'prop', 'result': 'native',
